@@ -522,6 +522,8 @@ fn gen_input(r: &mut Rng, base: &J) -> (Vec<u8>, &'static str) {
             let special: &[&[u8]] = &[
                 b"18446744073709551615",
                 b"18446744073709551616",
+                b"[-0.0, 0, 0.0, -9223372036854775808, 1E+2, 1.0e-2, 2.50]",
+                b"{\"a\": -9223372036854775808, \"b\": 1.0, \"c\": 1e21, \"d\": 123456789012345680000}",
                 b"-9223372036854775808",
                 b"-9223372036854775809",
                 b"1e400",
@@ -544,6 +546,45 @@ fn gen_input(r: &mut Rng, base: &J) -> (Vec<u8>, &'static str) {
                 b"'single'",
             ];
             ((*r.pick(special)).to_vec(), "special")
+        }
+        18 => {
+            match r.below(4) {
+                0 => {
+                    // a long string whose multi-byte characters straddle buffer boundaries
+                    let target = *r.pick(&[4096usize, 8192, 16384, 65536, 131072]);
+                    let mut s = String::from("{\"u\": \"");
+                    while s.len() < target - 3 - r.below(3) {
+                        s.push('a');
+                    }
+                    for _ in 0..40 {
+                        s.push(*r.pick(&['\u{e4}', '\u{20ac}', '\u{1F600}', 'z']));
+                    }
+                    s.push_str("\", \"a\": [1, 2, 3], \"xs\": []}");
+                    (s.into_bytes(), "long_string")
+                }
+                1 => {
+                    let depth = *r.pick(&[60usize, 100, 126, 127, 128, 129, 200]);
+                    let mut s = String::new();
+                    for _ in 0..depth {
+                        s.push('[');
+                    }
+                    s.push('1');
+                    for _ in 0..depth {
+                        s.push(']');
+                    }
+                    (s.into_bytes(), "deep_nesting")
+                }
+                2 => {
+                    let mut b = vec![0xefu8, 0xbb, 0xbf];
+                    b.extend_from_slice(&good);
+                    (b, "utf8_bom")
+                }
+                _ => {
+                    let n = 3000 + r.below(6000);
+                    let items: Vec<String> = (0..n).map(|i| ((i * 7919) % 10007).to_string()).collect();
+                    (format!("{{\"a\": [{}], \"xs\": [], \"u\": \"x\"}}", items.join(",")).into_bytes(), "large_array")
+                }
+            }
         }
         _ => {
             // another valid document, unrelated to the expression
@@ -722,8 +763,9 @@ fn gen_plan(r: &mut Rng, c: &Case) -> Vec<String> {
 fn gen_case(seed: u64) -> Case {
     let mut r = Rng::new(seed);
     let base = if r.chance(2, 3) {
-        // records document
-        let n = r.below(5);
+        // records document; now and then big enough for input and output to exceed any
+        // plausible buffer (4 KiB, 8 KiB, 64 KiB)
+        let n = if r.chance(1, 14) { 400 + r.below(2600) } else { r.below(5) };
         let xs: Vec<J> = (0..n)
             .map(|i| {
                 J::Obj(vec![
